@@ -110,7 +110,7 @@ func c20Driver(c *Ctx) {
 			}
 		}
 	}()
-	slice := uint32(20) // quick: 1/20 of the family
+	slice := uint32(5) // quick: 1/5 of the family (raw and info files: 1/2)
 	if !c.Quick {
 		slice = 1
 		c.Res.Exhaustive = true
@@ -170,7 +170,11 @@ func c20Driver(c *Ctx) {
 				}
 				h := fnv.New32a()
 				fmt.Fprintf(h, "%d|%s|%s|%s|%d", c.Seed, cc.File, cc.Title, tg.name, mi)
-				if h.Sum32()%slice != 0 {
+				sl := slice
+				if sl > 2 && (tg.role == "raw" || tg.role == "info") {
+					sl = 2
+				}
+				if h.Sum32()%sl != 0 {
 					continue
 				}
 				if c.TimeUp() {
